@@ -109,21 +109,30 @@ fn gen_i64(cx: &mut Ctx) -> i64 {
     }
 }
 
-/// "exactly representable floats": dyadic rationals, integers and powers of two whose shortest
-/// decimal form has at most 15 significant digits, and signed zero. (serde_json without its
-/// `float_roundtrip` feature — third-party, documented — may parse 16/17-digit decimals 1 ULP off,
-/// e.g. `4226558646762882.0` or `2^-43`; such values are outside the property's quantifier and
-/// are not generated.)
+/// finite floats of every kind: dyadic rationals, integers, powers of two over the whole exponent range,
+/// 17-significant-digit values, subnormals, extremes and signed zero. (Until the `fix:` that enables
+/// serde_json's `float_roundtrip`, values such as `4226558646762882.0` or `2^-43` came back 1 ULP off from a
+/// JSONL file; they are corpus cases now.)
 fn gen_f64(cx: &mut Ctx) -> f64 {
-    match cx.rng.below(8) {
+    match cx.rng.below(14) {
         0 => 0.0,
         1 => -0.0,
         2 => 1.0,
         3 => (cx.rng.range(-1_000_000, 1_000_000) as f64) / f64::from(1u32 << cx.rng.below(11)),
-        4 => 2.0f64.powi(cx.rng.range(-10, 40) as i32) * if cx.rng.chance(1, 2) { -1.0 } else { 1.0 },
+        4 => 2.0f64.powi(cx.rng.range(-1074, 1023) as i32) * if cx.rng.chance(1, 2) { -1.0 } else { 1.0 },
         5 => cx.rng.range(-999_999_999_999_999, 999_999_999_999_999) as f64,
         6 => -0.5,
-        _ => (cx.rng.range(-4096, 4096) as f64) * 0.25,
+        7 => (cx.rng.range(-4096, 4096) as f64) * 0.25,
+        8 => *cx.rng.pick(&[4226558646762882.0, 1.1368683772161603e-13 /* 2^-43 */, 0.30000000000000004, 5e-324, f64::MAX, f64::MIN, f64::MIN_POSITIVE, 1.7976931348623155e308, 9007199254740993.0]),
+        9 | 10 | 11 => {
+            // arbitrary finite bit pattern
+            loop {
+                let x = f64::from_bits(cx.rng.next_u64());
+                if x.is_finite() { break x; }
+            }
+        }
+        12 => (cx.rng.next_u64() >> 11) as f64 / (1u64 << 53) as f64,
+        _ => (cx.rng.range(-999_999_999_999_999, 999_999_999_999_999) as f64) * 1e-7,
     }
 }
 
